@@ -11,7 +11,7 @@ from .c01 import jobs_random
 from .common import Report
 
 CLAUSES = {"list_records_exact", "find_files_exact", "ok_matches_protocol", "state_matches_protocol", "view_function_of_payloads", "neighbours_untouched",
-           "records_valid", "observation_changes_nothing", "operation_terminates"}
+           "records_valid", "observation_changes_nothing", "operation_terminates", "handle_matches_disk"}
 DATA_CLAUSES = {"boundary_is_stutter", "discard_restores_commit", "open_does_not_alter_files",
                 "view_eq_documented_reading_of_files", "view_readable"}
 
